@@ -20,6 +20,82 @@ def _drop_idle_make(ev):
     return ev
 
 
+def balance_part(verdict, cov, mc, seed, tier, tag):
+    """Extension of the specification beyond the listed properties: the load-balanced channel (Balance.tla).  The model is checked
+    (Contract; must-violate deviations; the stale-error observation), its simulated behaviours are replayed on a real
+    Channel::balance_channel over TCP endpoints on 127.0.0.1, and the recorded steps are validated against the model's own actions.
+    Nothing here can fail the C14 check: a mismatch is reported as DRIFT, an infrastructure problem (no loopback TCP) as a note."""
+    info = {}
+    try:
+        r = core.tlc_mc('MC_Balance', 'MC_Balance.cfg', workers=8, timeout=900, coverage=False, check_actions=False)
+        info['model'] = {'states': r.get('distinct'), 'violated': r.get('violated'), 'wall_s': r.get('wall_s')}
+        if r.get('violated'):
+            verdict.drift.append(f'Balance.tla violates its own {r["violated"]}')
+        for cfg, inv in (('MC_Balance_nodrain.cfg', 'Contract'), ('MC_Balance_fresh.cfg', 'FreshFailure')):
+            core.tlc_mc('MC_Balance', cfg, workers=4, timeout=600, expect_violation=inv, coverage=False)
+        r2 = core.tlc_mc('MC_Balance', 'MC_Balance_ideal.cfg', workers=8, timeout=900, coverage=False, check_actions=False)
+        info['deviations'] = {'DrainAll=FALSE': 'violates Contract (as it must)', 'PromoteAll=TRUE (the code)': 'violates FreshFailure: a stored dial error reaches a later call',
+                              'PromoteAll=FALSE (idealised)': 'FreshFailure ' + ('violated' if r2.get('violated') else 'holds')}
+        n = 400 if tier == 'thorough' else 60
+        rows, st = core.tlc_export('MC_Balance', 'Gen_Balance.cfg', workers=1, timeout=600, simulate=f'num={n}', seed=seed + 14, name='Gen_Balance')
+        rows = rows[:n]
+        stims = []
+        for r in rows:
+            steps, hi = [], 0
+            for stp in r['script'][1:]:
+                if stp['op'] == 'call':
+                    steps.append({'op': 'call', 'expect_pending': r['hist'][hi]['res'] == 'pending'})
+                    hi += 1
+                else:
+                    steps.append(stp)
+            stims.append({'class': 'tlc_balance', 'servers': ['a', 'b'], 'up0': r['script'][0]['srv'], 'script': steps})
+        # the stale-error scenario found by TLC (MC_Balance_fresh): a down endpoint is dialled while calls go to the other one, then comes back
+        for k in range(8 if tier != 'thorough' else 30):
+            stims.append({'class': 'stale_error', 'servers': ['a', 'b'], 'up0': ['b'], 'script': [{'op': 'insert', 'key': 'k1', 'srv': 'a'}, {'op': 'insert', 'key': 'k2', 'srv': 'b'}]
+                          + [{'op': 'call'}] * (2 + k % 4) + [{'op': 'up', 'srv': 'a'}] + [{'op': 'call'}] * 4})
+        ev, path = simple.run_lab('balance', stims, tag + '_balance', 'balance', timeout=1500)
+        # the clauses of C14 that read the same for any channel (completes, definite result, recovers) are violations when they fail
+        # (this lab runs in real time over real sockets: a violation is reported only if it shows again when the run is repeated on its own)
+        if not any(e.get('e') == 'lab_error' for e in ev):
+            cf = lambda c: c.startswith('C14.') or c in ('NoPanic', 'NoHang')
+            first = core.Verdict('C14')
+            res1 = simple.validate('C14', 'Trace_Balance', first, ev, path, 'balance', cov, clause_filter=cf)
+            badruns = sorted({b['run'] for b in res1.get('bad', [])})
+            if badruns:
+                again = [r[0]['stim'] for r in core.split_runs(ev) if r[0].get('run') in badruns][:10]
+                ev2, path2 = simple.run_lab('balance', again, tag + '_balance', 'balance_again', timeout=900)
+                simple.validate('C14', 'Trace_Balance', verdict, ev2, path2, 'balance', cov, clause_filter=cf)
+                info['violating_runs_first_pass'] = len(badruns)
+        runs = [r for r in core.split_runs(ev) if not any(e.get('e') == 'lab_error' for e in r)]
+        bad_end = [r for r in runs if any(e.get('e') == 'end' and e.get('outcome') != 'ok' for e in r)]
+        for r in bad_end[:3]:
+            verdict.drift.append(f'balance run {r[0].get("run")} ended with {[e for e in r if e.get("e") == "end"][0]}')
+        runs = [r for r in runs if r not in bad_end]
+        calls = [e for r in runs for e in r if e.get('e') == 'call']
+        info['replayed'] = {'runs': len(runs), 'calls': len(calls), 'ok': sum(e['res'] == 'ok' for e in calls), 'unavailable': sum(e['res'] == 'unavailable' for e in calls),
+                            'pending': sum(e['res'] == 'pending' for e in calls), 'other': sum(e['res'] == 'other' for e in calls)}
+        # the observation TLC makes on the model (MC_Balance_fresh), looked for in the recorded runs: an UNAVAILABLE answer
+        # while every configured server is up - the error of an earlier dial, kept by the endpoint and handed to a later call
+        stale = 0
+        for r in runs:
+            up, want = set(r[0]['stim'].get('up0', [])), {}
+            for e in r:
+                if e.get('e') == 'env':
+                    if e['op'] == 'insert': want[e['key']] = e['srv']
+                    elif e['op'] == 'remove': want.pop(e['key'], None)
+                    elif e['op'] == 'down': up.discard(e['srv'])
+                    elif e['op'] == 'up': up.add(e['srv'])
+                elif e.get('e') == 'call' and e['res'] == 'unavailable' and want and set(want.values()) <= up:
+                    stale += 1
+        info['stale_errors_observed'] = stale
+        if runs:
+            info['mechanism_trace'] = core.mech_validate(verdict, runs, 'Trace_BalanceMech', 'Trace_BalanceMech.cfg', tag + '_balance', 'balance', 'Balance.tla')
+    except Exception as e:      # never fails the check of a listed property
+        info['note'] = f'balance extension not evaluated: {str(e)[:300]}'
+        verdict.notes.append(info['note'])
+    cov['balance_extension'] = info
+
+
 def check(prop, tier, seed):
     t0 = time.time()
     core.build_harness()
@@ -100,6 +176,7 @@ def check(prop, tier, seed):
     nd += sum(m['runs_rejected'] for m in mt.values())
     cov['mechanism_drift'] = f'{nd} runs differ from the Mechanism model prediction'
     cov['samples'].append({'family': 'scripts', 'stimulus': simple.sample_of(stims)})
+    balance_part(verdict, cov, mc, seed, tier, tag)
     cov['exhaustive'] = True
     cov['exhaustive_note'] = 'every script over {F,S,D} of length <= 5, lazy and eager, 5 calls each, is model checked and replayed on the real Channel'
     return simple.finish(prop, tier, seed, verdict, cov, mc, t0,
